@@ -71,6 +71,7 @@ struct Viol {
 struct Shm {
   volatile std::uint64_t executions, nodes, transitions, events, distinct_traces, distinct_outcomes;
   volatile std::uint64_t max_depth, max_events, failing_execs, replay_checks, hb_accesses, hb_sync, por_hits, por_states;
+  volatile std::uint64_t distinct_finals, finals_xor, outcomes_xor, finals_invalid;
   volatile int state;  // 0 running, 1 exhausted, 2 capped
   volatile int resume;
   volatile int in_warmup;
@@ -154,6 +155,7 @@ struct Engine {
 
   std::unordered_set<std::uint64_t> trace_set;
   std::unordered_set<std::uint64_t> outcome_set;
+  std::unordered_set<std::uint64_t> final_set;
   std::string cell_id;
   double deadline_s = 0;
   std::uint64_t max_exec = 0;
@@ -192,7 +194,8 @@ struct PBlock {
   std::uint64_t name;
 };
 struct Por {
-  bool on = false;       // enabled for this run
+  bool on = false;       // fingerprints are computed in this run
+  bool prune = false;    // ... and used to prune (off with --no-cache: fingerprints are then only reported)
   bool ok = true;        // still valid in this execution (too many fibers / objects disables it)
   bool pruned = false;   // this execution reached an already visited state: no new alternatives below
   std::uint64_t fp = 0;
@@ -702,7 +705,7 @@ void PorReset() {
 // Called when a NEW decision node is about to be created.  Returns true if the state was already
 // visited with at least as much budget left: the subtree below is then not explored again.
 bool PorVisited(int cur, DKind kind) {
-  if (!gPor.on || !gPor.ok || gPorTable == nullptr || g.warmup) {
+  if (!gPor.on || !gPor.prune || !gPor.ok || gPorTable == nullptr || g.warmup) {
     return false;
   }
   const std::uint64_t key = Mix64(gPor.fp ^ (static_cast<std::uint64_t>(cur + 2) << 8) ^ static_cast<std::uint64_t>(kind));
@@ -1378,8 +1381,9 @@ void SetupCellBounds(const Cell& cell, const Bounds& cmdline) {
 [[noreturn]] void ChildExplore(const Cell& cell) {
   Shm* s = g.shm;
   InstallHooks();
-  gPor.on = g.use_cache && !g.bounds.all_points;
-  if (gPor.on) {
+  gPor.on = !g.bounds.all_points;
+  gPor.prune = g.use_cache;
+  if (gPor.on && gPor.prune) {
     gPorTable = new std::unordered_map<std::uint64_t, PorEntry>();
     gPorTable->reserve(1 << 16);
   }
@@ -1422,8 +1426,18 @@ void SetupCellBounds(const Cell& cell, const Bounds& cmdline) {
     for (char ch : g.outcome) {
       oh = (oh ^ static_cast<unsigned char>(ch)) * 0x100000001b3ULL;
     }
+    // final partial-order fingerprints: the set must not depend on whether the state cache pruned
+    if (gPor.on) {
+      if (!gPor.ok) {
+        ++s->finals_invalid;
+      } else if (g.final_set.insert(gPor.fp).second) {
+        s->distinct_finals = g.final_set.size();
+        s->finals_xor ^= Mix64(gPor.fp);
+      }
+    }
     if (g.outcome_set.insert(oh).second) {
       s->distinct_outcomes = g.outcome_set.size();
+      s->outcomes_xor ^= Mix64(oh);
       if (s->nsample_outcome < 6) {
         std::snprintf(s->sample_outcome[s->nsample_outcome++], sizeof(s->sample_outcome[0]), "%s", g.outcome.c_str());
       }
@@ -1755,6 +1769,11 @@ int Supervise(const Options& opt, const std::string& cell_id, std::string& js, d
                 static_cast<unsigned long long>(s->hb_sync), static_cast<unsigned long long>(s->por_hits),
                 static_cast<unsigned long long>(s->por_states), (s->state == 1 && machinery == 0) ? "true" : "false",
                 JsonEscape(s->cap_reason).c_str(), forks, wall);
+  js += b;
+  std::snprintf(b, sizeof(b), "\"cache\":%s,\"distinct_finals\":%llu,\"finals_xor\":\"%016llx\",\"outcomes_xor\":\"%016llx\",\"finals_invalid\":%llu,",
+                g.use_cache && !g.bounds.all_points ? "true" : "false", static_cast<unsigned long long>(s->distinct_finals),
+                static_cast<unsigned long long>(s->finals_xor), static_cast<unsigned long long>(s->outcomes_xor),
+                static_cast<unsigned long long>(s->finals_invalid));
   js += b;
   js += "\"sample_outcomes\":[";
   for (std::uint32_t i = 0; i < s->nsample_outcome; ++i) {
